@@ -52,7 +52,7 @@ def run(ctx):
     for t in range(6 if ctx.quick else 40):
         rng.shuffle(big)
         h = rng.randint(3, len(big) - 3)
-        refs, qs = big[:h] + rng.sample(big, 3), big[h:] + rng.sample(big[:h], 4)
+        refs, qs = big[:h] + rng.sample(big, 3), big[h:] + rng.sample(big[:h], min(4, h))
         for kind in ('symdel', 'nearest_neighbor', 'SymdelDB'):
             cases.append(mk(kind, refs, qs, 1 + t % 3))
         cases.append(mk('LookupDB', refs, qs, 1 + t % 2))
